@@ -259,9 +259,10 @@ pub fn gen_value(rng: &mut Rng, p: &GenParams) -> V {
     }
 }
 
-pub fn gen_op(rng: &mut Rng, p: &GenParams, n_conts: usize, n_threads: usize, me: usize, child_pool: &mut Vec<u8>) -> Op {
+pub fn gen_op(rng: &mut Rng, p: &GenParams, n_conts: usize, n_threads: usize, me: usize, child_pool: &mut Vec<u8>, g_range: u8) -> Op {
     let c = rng.below(n_conts as u64) as u8;
-    let g = rng.below(N_G as u64) as u8;
+    // guard slots: the general ones plus the ones filled by the pre-held guards of this thread
+    let g = rng.below(g_range.max(1) as u64) as u8;
     let h = rng.below(N_H as u64) as u8;
     let ws = [
         p.w_load,
@@ -430,7 +431,7 @@ pub fn gen_program(rng: &mut Rng, p: &GenParams) -> Program {
             let n_ops = 1 + rng.below(p.max_ops as u64) as usize;
             for _ in 0..n_ops {
                 let mut pool = if is_child { Vec::new() } else { std::mem::take(&mut child_pool) };
-                ops.push(gen_op(rng, p, n_conts, n_threads, t, &mut pool));
+                ops.push(gen_op(rng, p, n_conts, n_threads, t, &mut pool, N_G + pre as u8));
                 if !is_child {
                     child_pool = pool;
                 }
